@@ -270,6 +270,7 @@ class ModelElement:
                     setattr(self, key, val)
             self._model._loader.idcache_index(self._element)
         except BaseException:
+            self._model._loader.idcache_remove(self._element)
             parent.remove(self._element)
             raise
 
